@@ -94,7 +94,7 @@ Print Assumptions C04_accepts_conn.
 
 (* ---- the source functions themselves: Gallina translations regenerated from /repo on every run (Gen/Translated.v)
    equal the model functions the theorems above are about, for every input, and never panic ---- *)
-From Trans Require Spec Equiv.
+From Trans Require Spec Equiv SpecTopics EquivTopics.
 
 (* message.readLPBytes, as the source has it now, never panics (result is never None) and equals the model *)
 Theorem C04_readLPBytes_never_panics : Trans.Spec.T_readLPBytes.
@@ -102,8 +102,8 @@ Proof. exact Trans.Equiv.readLPBytes_equiv. Qed.
 Print Assumptions C04_readLPBytes_never_panics.
 
 (* topics.nextTopicLevel never panics on any byte string *)
-Theorem C04_nextTopicLevel_never_panics : Trans.Spec.T_nextTopicLevel.
-Proof. exact Trans.Equiv.nextTopicLevel_equiv. Qed.
+Theorem C04_nextTopicLevel_never_panics : Trans.SpecTopics.T_nextTopicLevel.
+Proof. exact Trans.EquivTopics.nextTopicLevel_equiv. Qed.
 Print Assumptions C04_nextTopicLevel_never_panics.
 
 (* header.decode - the fixed-header decoder every packet decoder starts with - as the source has it now, with the methods it
